@@ -196,6 +196,11 @@ func (c *child) workFn(mod string, w *Work) func(ctx context.Context) error {
 			}
 			return nil
 		}
+		if w.QueueInside && int(n)-w.Requeue == 1 {
+			if t := c.taskOf(w.ID); t != nil {
+				t.Queue()
+			}
+		}
 		if w.Mode == "waitctx" {
 			<-ctx.Done()
 			hold(w.DelayUS)
@@ -256,6 +261,9 @@ func (c *child) launch(mod string, w *Work) {
 		c.mu.Lock()
 		c.tasks[w.ID] = t
 		c.mu.Unlock()
+		if w.MaxDelayMS > 0 {
+			t.MaxDelay(time.Duration(w.MaxDelayMS) * time.Millisecond)
+		}
 		t.Queue()
 	case "schedtask":
 		t := m.NewTask(name, func(ctx context.Context, _ *modules.Task) error { return fn(ctx) })
@@ -636,6 +644,19 @@ func RunChild(sc *Scenario) *Result {
 					break
 				}
 				time.Sleep(200 * time.Microsecond)
+			}
+		case "waitrerun":
+			// wait until every task that queued itself again from inside its panicking run has begun the run for that
+			// submission (nothing else asks for it)
+			for id, w := range c.workByID {
+				if !w.QueueInside {
+					continue
+				}
+				deadline := time.Now().Add(20 * time.Second)
+				for int(atomic.LoadInt32(c.beganN[id])) < w.Requeue+2 && time.Now().Before(deadline) {
+					time.Sleep(200 * time.Microsecond)
+				}
+				c.rec(Event{Kind: "rerun-waited", ID: id, Info: fmt.Sprintf("runs=%d", atomic.LoadInt32(c.beganN[id]))})
 			}
 		case "waitcounts":
 			// quiescence: poll until the module counters equal the number of items that are really still running
